@@ -31,3 +31,13 @@ Example C03_commit_phase_examples :
   commit_phase_b 0%N (TAcq 1%N :: TCommit true :: TRel 1%N :: TCommitted true :: nil) = false /\
   commit_phase_b 0%N (TAcq 1%N :: TCommit true :: TCommitted true :: TAcq 2%N :: nil) = false.
 Proof. vm_compute. auto. Qed.
+
+(* what the concurrent check reports as "linearizable" is linearizable: the order found by the (untrusted)
+   search is accepted only by the extracted lin_check, and an accepted order is a permutation of the
+   operations that respects real time, replays on the reference with every observed reply agreeing, and
+   ends in the state decoded from the implementation's final disk *)
+From V Require Model.Lin Proofs.LinProofs.
+Theorem C03_certificate_sound : forall P ops s0 final order,
+  V.Model.Lin.lin_check P ops s0 final order = true -> V.Proofs.LinProofs.linearizable P ops s0 final.
+Proof. exact V.Proofs.LinProofs.lin_check_sound. Qed.
+Print Assumptions C03_certificate_sound.
